@@ -43,7 +43,8 @@ RULE = ("buses of 2-4 terminals (pre-assigned inside/outside the range, "
         "initialize(relative, absolute=X) / gentle_initialize(absolute=X) "
         "and terminals plugged in pre-addressed, before and after a "
         "completed scan; one Terminal object initialised at two positions) "
-        "x every randint answer from the shrunk range x bounded "
+        "x every randint answer from the shrunk range x bounded (a frame "
+        "the interface refuses to send counts as one deviation) "
         "delivery-order deviations; non-trivial = at least one address was "
         "written or handed out; distinct = distinct (bus, workload, choices)")
 
@@ -233,6 +234,14 @@ def execute(ch, conf):
                             *coros, return_exceptions=True)
                 return results
             fut = asyncio.ensure_future(main())
+            plain_send = m.transport.sendto
+
+            def sendto(data, addr=None):
+                # deviation: the interface refuses the frame
+                if ch.choose(2, "send fails"):
+                    raise OSError(105, "No buffer space available")
+                return plain_send(data, addr)
+            m.transport.sendto = sendto
 
             def on_idle(master):
                 n = len(master.transport.inflight)
